@@ -227,6 +227,30 @@ func genC12(env *core.Env, emit func(core.Case)) {
 		add("owned", sig, b)
 	}
 	ownedLabels = nil
+	// answer sections in which the CNAME records of the asked name form a cycle (x CNAME x; a -> b -> a;
+	// a longer ring), alone or next to address records: a forwarder that does not look, or a hostile server
+	for _, qn := range [][][]byte{{[]byte("example"), []byte("com")}, {[]byte("_8443"), []byte("_https"), []byte("example"), []byte("com")}} {
+		for ring := 1; ring <= 4; ring++ {
+			for _, qtype := range []int{1, 28, 65} {
+				d := &gen.DNSBuilder{}
+				extra := ring % 2
+				d.Header(uint16(r.IntN(65536)), 0x8180, 1, ring+extra, 0, 0)
+				d.Question(r, gen.NamePlain, qn, qtype, 1)
+				names := [][][]byte{qn}
+				for k := 1; k < ring; k++ {
+					names = append(names, [][]byte{[]byte(fmt.Sprintf("hop%d", k)), []byte("example"), []byte("net")})
+				}
+				for k := 0; k < ring; k++ {
+					next := names[(k+1)%ring]
+					d.RR(r, gen.NamePlain, names[k], 5, 1, uint32(r.IntN(300)), func() { d.Name(r, gen.NamePlain, next) }, 0)
+				}
+				if extra == 1 {
+					d.RR(r, gen.NamePlain, names[ring-1], 1, 1, 60, func() { d.B = append(d.B, 10, 0, 0, 1) }, 0)
+				}
+				add("cname-cycle", fmt.Sprintf("ring%d/q%d", ring, qtype), d.B)
+			}
+		}
+	}
 	// section counts at the top of their 16-bit range (their sum does not fit 16 bits), on top of a valid response
 	for _, cnt := range [][3]int{{1, 0xffff, 0}, {1, 0, 0xffff}, {0x8000, 0x8000, 0}, {0xffff, 1, 1}, {0xffff, 0xffff, 0xffff}, {0x8000, 0x7fff, 1}, {2, 0xfffe, 0}} {
 		d := &gen.DNSBuilder{}
@@ -340,9 +364,26 @@ func genC12(env *core.Env, emit func(core.Case)) {
 				}()
 				ctx, cancel := context.WithTimeout(context.Background(), 5*time.Second)
 				defer cancel()
-				resolver.Resolve(ctx, []string{"example.com", "example.com:8443", "https://example.com"}[i%3])
-				if ctx.Err() != nil {
-					w = "Resolver.Resolve did not return within 5 s"
+				// under a watchdog: a lookup that neither returns nor reacts to its context is reported,
+				// and no further lookups are made (the goroutine it occupies cannot be reclaimed)
+				done := make(chan string, 1)
+				go func() {
+					defer func() {
+						if rec := recover(); rec != nil {
+							done <- fmt.Sprint("Resolver.Resolve panicked on a decodable DoH response: ", rec)
+						}
+					}()
+					resolver.Resolve(ctx, []string{"example.com", "example.com:8443", "https://example.com"}[i%3])
+					done <- ""
+				}()
+				select {
+				case w = <-done:
+					if w == "" && ctx.Err() != nil {
+						w = "Resolver.Resolve did not return within 5 s"
+					}
+				case <-time.After(8 * time.Second):
+					w = "Resolver.Resolve is still running 3 s after its context's deadline (5 s): it neither returns nor reacts to the context"
+					nres = maxRes
 				}
 			}()
 			ops = append(ops, core.Op{Kind: 'X', Note: "the resolver consumes any decodable DoH response body without panicking", Want: w})
